@@ -153,4 +153,16 @@ PROPS = {
         thorough=dict(budget_s=1800, profiles=[P("C03", 40000)]),
         reach=["c03_unroutable_replies", "c03_client_disconnects", "backend_conn_killed"],
     ),
+    "C14": dict(
+        level="exploration",
+        rule="histories of 1-4 (thorough: up to 8) cluster descriptions derived by seeded mutations (failover, new master/replica, replica removed / flagged "
+             "fail, fail?, handshake, noaddr, disconnected / loading / master link down / re-parented, slot ranges moved, migration markers, failed or "
+             "ghost masters), with per-node lag and interleaved unusable probe answers (error, nil, +OK, oversized, truncated, too few nodes, garbage); "
+             "oracle by routing, anchored on the first probe reply carrying the final description that the proxy consumed (+3 fake seconds, fair "
+             "schedule): writes reach the claiming master, reads only it or its usable replicas, unclaimed slots are refused; "
+             "non-trivial = history non-empty and probes were served",
+        quick=dict(budget_s=90, profiles=[P("C14", 200), P("C14", 100, "valid-only")]),
+        thorough=dict(budget_s=1800, profiles=[P("C14", 8000), P("C14", 2000, "long"), P("C14", 2000, "valid-only")]),
+        reach=["c14_history_steps", "c14_probe_requests_served"],
+    ),
 }
